@@ -2,8 +2,6 @@ package main
 
 import (
 	"go/token"
-	"go/types"
-	"strings"
 
 	"golang.org/x/tools/go/ssa"
 )
@@ -200,7 +198,7 @@ func c21Package(c *Ctx, p *Prog, sfx string) {
 	}
 
 	// ---- (5) exit status inside runOSSpecific
-	c21ExitStatus(c, p, ros, sfx)
+	c21ExitStatusGen(c, p, ros, sfx) // prop_gen_c21.go
 
 	// ---- (6) constant index / slice of the split result needs a length test
 	var idx []ssa.Instruction
@@ -359,179 +357,6 @@ func c21ArgvIdiom(c *Ctx, p *Prog, fn *ssa.Function, call *ssa.Call, sfx string)
 	return true, "argv = split(raw)[i] each replaced by expandEnv(split(raw)[i], c.Env)"
 }
 
-// c21ExitStatus: waiter closure, completion channel, result mapping.
-func c21ExitStatus(c *Ctx, p *Prog, ros *ssa.Function, sfx string) {
-	// the waiter: the function of the package that calls (*exec.Cmd).Wait
-	var waiter *ssa.Function
-	var wait *ssa.Call
-	nW := 0
-	var rec func(f *ssa.Function)
-	rec = func(f *ssa.Function) {
-		for _, i := range callsIn(f, "(*os/exec.Cmd).Wait") {
-			if cl, ok := i.(*ssa.Call); ok {
-				waiter, wait = f, cl
-				nW++
-			}
-		}
-		for _, a := range f.AnonFuncs {
-			rec(a)
-		}
-	}
-	rec(ros)
-	if nW != 1 {
-		c.Undecided("UNRESOLVED ANCHOR C21.exit_status" + sfx + ": want exactly one (*exec.Cmd).Wait call under runOSSpecific, got " + itoa(nW))
-		return
-	}
-	c.Analysed(fnName(waiter))
-	// Wait is called on the command that was started
-	starts := callsIn(ros, "(*os/exec.Cmd).Start")
-	if len(starts) == 1 {
-		ws := loadAddr(wait.Call.Args[0])
-		var wroot ssa.Value
-		if ws != nil {
-			wroot = rootBinding(ws)
-		} else {
-			wroot = rootBinding(wait.Call.Args[0])
-		}
-		sa := callCommon(starts[0]).Args[0]
-		var sroot ssa.Value = sa
-		if la := loadAddr(sa); la != nil {
-			sroot = la
-		}
-		c.Check("C21.exit_status.waits_started"+sfx, shortFn(waiter)+": Wait is called on the started command", wroot == sroot,
-			p.Pos(wait.Pos()), "Wait on "+desc(wroot)+", Start on "+desc(sroot))
-	}
-
-	W := desc(wait)
-	isEE := []string{"errors.AsType[*os/exec.ExitError](" + W + ")#1", W + ".(*os/exec.ExitError)#1"}
-	// (a) a constant is returned only when Wait succeeded or the error is not an ExitError
-	constRet := func(i ssa.Instruction) bool {
-		r, ok := i.(*ssa.Return)
-		if !ok || len(r.Results) != 1 {
-			return false
-		}
-		_, isC := retVal(r, 0).(*ssa.Const)
-		return isC
-	}
-	if countTargets(waiter, constRet) > 0 {
-		w := reachWithout(entry(waiter), constRet, []LitPat{T("(" + W + " == nil)"), F(isEE[0]), F(isEE[1])})
-		detail, pos := "", p.Pos(waiter.Pos())
-		if w != nil {
-			detail = "a constant status is returned although Wait failed with an *exec.ExitError: " + w.String(p)
-			pos = p.Pos(posOf(w.Hit, waiter))
-		}
-		c.Check("C21.exit_status.waiter"+sfx, shortFn(waiter)+": a constant status is returned only when Wait succeeded or its error is not an *exec.ExitError",
-			w == nil, pos, detail)
-	}
-	// (b) every return is 0 or the ExitCode of that ExitError
-	nCode := 0
-	for _, r := range returnsOf(waiter) {
-		v := retVal(r, 0)
-		if v == nil {
-			continue
-		}
-		ok := false
-		if k, isK := constIntE(v); isK {
-			ok = k == 0
-		} else if cl, isCall := v.(*ssa.Call); isCall && isCallTo(cl, "(*os.ProcessState).ExitCode", "(*os/exec.ExitError).ExitCode") &&
-			strings.Contains(desc(cl.Call.Args[0]), W) {
-			ok = true
-			nCode++
-		}
-		c.Check("C21.exit_status.waiter"+sfx, shortFn(waiter)+": returns "+strings.ReplaceAll(desc(v), W, "werr"), ok, p.Pos(posOf(r, waiter)),
-			"a waiter result is 0 or ExitCode() of the ExitError returned by Wait")
-	}
-	c.Count("waiter returns carrying ExitCode"+sfx, nCode)
-
-	// (c) the waiter's result is what is sent on the completion channel the select receives from
-	var send *ssa.Send
-	var sender *ssa.Function
-	for _, ref := range refsOfFunc(waiter) {
-		cl, ok := ref.(*ssa.Call)
-		if !ok {
-			continue
-		}
-		for _, rr := range *cl.Referrers() {
-			if s, ok := rr.(*ssa.Send); ok && s.X == ssa.Value(cl) {
-				send, sender = s, cl.Parent()
-			}
-		}
-	}
-	var sel *ssa.Select
-	eachInstr(ros, func(i ssa.Instruction) {
-		if s, ok := i.(*ssa.Select); ok {
-			sel = s
-		}
-	})
-	if send == nil || sel == nil {
-		c.Check("C21.exit_status.sent"+sfx, shortFn(ros)+": waiter result is sent on the completion channel", false, p.Pos(ros.Pos()),
-			"no send of the waiter's call result / no select found")
-		return
-	}
-	c.Analysed(fnName(sender))
-	chRoot := rootBinding(sendChanAddr(send.Chan))
-	state, slot := -1, 2
-	for k, st := range sel.States {
-		if st.Dir != types.RecvOnly {
-			continue
-		}
-		if a := sendChanAddr(st.Chan); a != nil && rootBinding(a) == chRoot {
-			state = k
-			break
-		}
-		slot++
-	}
-	c.Check("C21.exit_status.sent"+sfx, shortFn(ros)+": waiter result is sent on the completion channel", state >= 0, p.Pos(send.Pos()),
-		"the select in runOSSpecific does not receive from the channel the waiter result is sent on")
-	if state < 0 {
-		return
-	}
-	code := "select#" + itoa(slot)
-	zero := "(" + code + " == 0)"
-	// (d) nil only on code 0
-	c.MustPass(p, ros, "C21.exit_status.nil_only_on_zero"+sfx, "return nil", retNil(0), T(zero))
-	// (e) on the completion branch with code != 0 every return is fmt.Errorf(..., code)
-	var startB *ssa.BasicBlock
-	for _, b := range ros.Blocks {
-		ifi := ifOf(b)
-		if ifi == nil {
-			continue
-		}
-		if l := litOf(ifi.Cond, true); l.Atom == "(select#0 == "+itoa(state)+")" && l.Pos {
-			startB = b.Succs[0]
-		}
-	}
-	if startB == nil {
-		c.Undecided("UNRESOLVED ANCHOR C21.exit_status" + sfx + ": select dispatch block of the completion case")
-		return
-	}
-	nErr := 0
-	w := (&Walker{
-		Visit: func(i ssa.Instruction) int {
-			r, ok := i.(*ssa.Return)
-			if !ok {
-				return wContinue
-			}
-			v := retVal(r, 0)
-			if cl, ok := v.(*ssa.Call); ok && calleeName(&cl.Call) == "fmt.Errorf" && len(cl.Call.Args) == 2 {
-				for _, e := range variadicElemsE(cl.Call.Args[1]) {
-					if desc(e) == code {
-						nErr++
-						return wStop
-					}
-				}
-			}
-			return wHit
-		},
-		Edge: func(l Lit) bool { return !(l.Pos && l.Atom == zero) },
-	}).Run(Point{startB, 0})
-	detail := ""
-	if w != nil {
-		detail = "a return on the non-zero branch does not carry the code: " + w.String(p)
-	}
-	c.Check("C21.exit_status.error_carries_code"+sfx, shortFn(ros)+": non-zero completion returns fmt.Errorf(…, code)", w == nil && nErr > 0, p.Pos(ros.Pos()), detail)
-}
-
 // sendChanAddr: the address a channel value was loaded from (variable), or
 // the value itself.
 func sendChanAddr(v ssa.Value) ssa.Value {
@@ -656,7 +481,7 @@ func c21Run(c *Ctx, p *Prog) {
 			},
 			func(x ssa.Instruction) bool {
 				cc := callCommon(x)
-				return cc != nil && calleeName(cc) == "dyn:$0.OnExit" && len(cc.Args) == 1 && cc.Args[0] == ssa.Value(call)
+				return cc != nil && calleeName(cc) == "dyn:$0.OnExit" && len(cc.Args) == 1 && c21CarriesResult(cc.Args[0], call, 0)
 			},
 			func(l Lit) bool {
 				if l.Pos && (l.Atom == "("+R+" == nil)" || l.Atom == "errors.Is("+R+", externalcmd.errTerminated)") {
